@@ -2,12 +2,14 @@
 from __future__ import annotations
 
 import itertools
+import re
 
 from . import core
 from . import markers as mk
-from .markers import E, Timeout, enc_env, enc_marker, ev, is_nf, timed, variables
+from .markers import E, Timeout, enc, enc_env, enc_marker, ev, is_nf, timed, variables
 
 from packaging.markers import Marker as PkgMarker  # noqa: E402
+from dep_logic.markers.single import _quote  # noqa: E402
 
 THEOREMS_BY_PROP = {
     "C02": ["DepLogic.C02.and_sound", "DepLogic.C02.or_sound", "DepLogic.C02.isEmpty_sound", "DepLogic.C02.isAny_sound",
@@ -21,7 +23,7 @@ THEOREMS_BY_PROP = {
             "DepLogic.C02.atomPv3_good", "DepLogic.C02.atomImpl_good", "DepLogic.C02.inexact_never_merged", "DepLogic.C11.reversed_canonical_good"],
     "C03": ["DepLogic.C03.build_sound", "DepLogic.C03.build_sound_final", "DepLogic.M.sound_all", "DepLogic.M.singleSound"],
     "C07": ["DepLogic.C07.str_empty_any", "DepLogic.C07.items_sem", "DepLogic.C07.reparse_sound", "DepLogic.C07.reparse_sound_final",
-            "DepLogic.C07.items_ok",
+            "DepLogic.C07.items_ok", "DepLogic.C07.read_quote", "DepLogic.C07.quote_roundtrip", "DepLogic.C07.quote_shape",
             "DepLogic.C07.atomOf_atomItem", "DepLogic.C03.build_sound"],
     "C12": ["DepLogic.C12.only_mentions", "DepLogic.C12.only_implied", "DepLogic.C12.only_same",
             "DepLogic.C12.exclude_mentions", "DepLogic.C12.exclude_implied", "DepLogic.C12.exclude_same_partial",
@@ -483,6 +485,28 @@ def run_c03(run: core.Run, n: int) -> None:
     run.extra.update(time_budget_skips=stats["timeouts"], oracle_evaluations=stats["oracle"])
 
 
+def pkg_read_literal(text: str) -> str:
+    """the value packaging's tokenizer + `ast.literal_eval` read from the quoted token at the head of `text` and the
+    rest of the text, in the driver's format; packaging's own code path (`packaging._tokenizer`, `process_python_str`)"""
+    import warnings
+    from packaging._tokenizer import Tokenizer, DEFAULT_RULES, ParserSyntaxError
+    from packaging._parser import process_python_str
+    tk = Tokenizer(text, rules=DEFAULT_RULES)
+    if not tk.check("QUOTED_STRING"):
+        return "none"
+    tok = tk.read()
+    try:
+        with warnings.catch_warnings():
+            warnings.simplefilter("ignore")
+            val = process_python_str(tok.text)
+    except Exception:  # noqa: BLE001
+        return "none"
+    v = val.value
+    if any(0xD800 <= ord(c) <= 0xDFFF for c in v):
+        return "none"           # a lone surrogate is not a character of the model
+    return "ok\t" + enc(v) + "\t" + enc(text[len(tok.text):])
+
+
 def evaluate_lock(m, env):
     try:
         return m.evaluate(dict(env), context="lock_file")
@@ -747,6 +771,31 @@ def run_shape(run: core.Run, prop: str, n: int) -> None:
                 run.fail(core.Failure("rt-lit|" + text.encode("unicode_escape").decode(), f"str(parse_marker({text!r})) does not parse "
                                       "back to the same marker", {"op": "rt", "text": text}))
         run.extra["awkward_literal_texts"] = n_awk
+        # the literal step against the model (Lean: C07.read_quote, for every string): what `_quote` writes for a value and
+        # what packaging reads from a quoted token, on awkward values and on random bodies over the escape alphabet
+        n_q = 0
+        alphabet = ["\\", "n", "r", "t", "x", "u", "2", "0", "f", "F", "g", "'", '"', "a", " ", "\n", "\r", "\x00", "\t", "\u00e9", "\u2028", ")"]
+        values = ["", "a", "\\", "\\\\", '"', "'", "'\"", "say \"hi\"", "it's", "a\x00b", "\x00", "\n", "\r\n", "tab\t", "\\n", "\\x22", "\\u0000",
+                  "\x7f", "\u00e9", "\u2028", "\U0001f600", "end\\", "x' or os_name == 'y", 'x" or os_name == "y']
+        qrng = core.random.Random(f"{run.seed}|quote")
+        values += ["".join(qrng.choice(alphabet) for _ in range(qrng.randint(1, 6))) for _ in range(300 if run.tier == "quick" else 3000)]
+        for v in values:
+            n_q += 1
+            lit = _quote(v)
+            run.add(core.Case("C07.quote", "q.quote\t" + enc(v), enc(lit)))
+            got = pkg_read_literal(lit + " == os_name")
+            run.add(core.Case("C07.read", "q.read\t" + enc(lit + " == os_name"), got))
+            if got != "ok\t" + enc(v) + "\t" + enc(" == os_name"):
+                run.fail(core.Failure("quote|" + enc(v), f"_quote({v!r}) = {lit!r} is read by packaging as {got!r}", {"op": "quote", "value": v}))
+        bodies = ["".join(qrng.choice(alphabet) for _ in range(qrng.randint(0, 7))) for _ in range(400 if run.tier == "quick" else 4000)]
+        for b in bodies:
+            for qc in "'\"":
+                text = qc + b + qc + " == os_name"
+                if re.search(r"\\[^\\nrt'\"xu]", b.replace("\\\\", "")):
+                    continue        # an escape the reader model does not cover (octal, \a, unknown escapes kept verbatim)
+                n_q += 1
+                run.add(core.Case("C07.read", "q.read\t" + enc(text), pkg_read_literal(text)))
+        run.extra["literal_step_cases"] = n_q
     run.extra.update(time_budget_skips=stats["timeouts"], oracle_evaluations=stats["oracle"])
 
 
@@ -887,6 +936,8 @@ def replay(data: dict) -> bool:
             return True
         import random
         return any(ev(back, env) != ev(m, env) for env in mk.envs_for([r["text"]], random.Random(0), 40))
+    if r["op"] == "quote":
+        return pkg_read_literal(_quote(r["value"]) + " == os_name") != "ok\t" + enc(r["value"]) + "\t" + enc(" == os_name")
     if r["op"] == "evalf":
         env = {k: (set(v) if isinstance(v, list) else v) for k, v in r["env"].items()}
         fenv = {k: (frozenset(v) if isinstance(v, set) else v) for k, v in env.items()}
